@@ -654,6 +654,19 @@ def install_arrays(reg: Registry):
         i.path.event("alloc", "ones", k.get("dtype", NONE))
         return const_arr(z3.RealVal(1), to_int(a[0]))
 
+    def ambient_random(i, a, k, n):
+        # xp.rand / xp.randn / torch.rand...: draws from the library's process-global generator, not from a generator object the caller supplied
+        assumed(i, "xp.rand / xp.randn: draw from the library's process-global random generator")
+        i.path.event("ambient.random", n)
+        m = to_int(a[0]) if a and isinstance(a[0], Z) else z3.Int(fresh("n_rand"))
+        return base_arr(fresh("global_random_draws"), "real", m)
+    for _nm in ("rand", "randn", "rand_like", "randn_like", "randperm"):
+        reg.handlers[f"xp.{_nm}"] = ambient_random
+
+    @H("xp.get_default_dtype")
+    def get_default_dtype(i, a, k, n):
+        return Sym(z3.Const("namespace_default_dtype", Misc), "dtype")
+
     @H("xp.full")
     def full(i, a, k, n):
         return const_arr(to_real(a[1]), to_int(a[0]))
@@ -1075,7 +1088,16 @@ def install_builtins(reg: Registry):
                 if i.front.find_method(o.cls, name) or i.front.find_property(o.cls, name):
                     return True
                 ca, _ = i.front.find_class_attr(o.cls, name)
-                return ca is not None
+                if ca is not None:
+                    return True
+                if i.front.instance_attr_values(o.cls, name):
+                    # an instance attribute the class assigns somewhere but the contract's state does not list: the object may come from an
+                    # earlier call (present, any value the class gives it) or be fresh (absent)
+                    if i.path.choose(2, f"present:{o.cls}.{name}") == 1:
+                        if i.havoc_unmodelled_attr(o, name, None) is not None:
+                            return True
+                    o.absent.add(name)
+                return False
             if f"{o.cls}.{name}" in reg.obj_props:
                 return reg.obj_props[f"{o.cls}.{name}"](i, o, None) is not None
             return f"{o.cls}.{name}" in reg.handlers
